@@ -139,9 +139,11 @@ fn main() {
         let mut machines: Vec<Machine> = Vec::new();
         while machines.len() < n {
             let mut m = gen_det_machine(&mut g);
-            m.allowedPad = -1;
+            // padding budgets and fractions depend on counts only; blocking limits depend on
+            // time and stay unlimited
+            m.allowedPad = *[-1i64, 0, 0, 1, 3].get(g.gen_range(0..5)).unwrap();
             m.allowedBlock = -1;
-            m.padFrac = (0, 1);
+            m.padFrac = gen_frac(&mut g);
             m.blockFrac = (0, 1);
             if let Ok(mm) = m.to_machine() {
                 machines.push(mm);
@@ -167,7 +169,7 @@ fn main() {
         let (pad, blk) = if bad_frac {
             [(f64::NAN, 0.0), (0.0, -0.5), (1.5, 0.0), (0.0, f64::INFINITY)][g.gen_range(0..4)]
         } else {
-            [(0.0, 0.0), (1.0, 1.0), (0.5, 0.0)][g.gen_range(0..3)]
+            [(0.0, 0.0), (1.0, 0.0), (0.5, 0.0), (0.25, 0.0), (0.125, 0.0)][g.gen_range(0..5)]
         };
         // what the Rust API says about the same input
         let rust_machines: Result<Vec<Machine>, _> = if not_utf8 {
